@@ -326,6 +326,8 @@ def oracle(line, out):
         if 'unparsable' in meta and out != 'err:ParserError': v.append(('C15', f'unparsable packet: got {out}'))
         if op == 'mroundtrip' and 'c01' in meta:
             if err or out.split(' ')[1][2:] != pk[2:]: v.append(('C01', f'manager round trip gives {out} for {pk}'))
+        if op == 'mroundtrip' and 'c18m' in meta:
+            if err or out.split(' ')[1][2:] != pk[2:]: v.append(('C18', f'manager round trip with direction-specific descriptors gives {out} for {pk}'))
         if op == 'mroundtrip' and 'c09' in meta:
             if err or out.split(' ')[1][2:] != pk[2:]: v.append(('C09', f'computed fields not regenerated: {out} vs {pk}'))
         if 'default' in meta and err: v.append(('C10', f'default rule present but compress raised {err}'))
@@ -541,7 +543,12 @@ def gen(props, tier, rng):
                 for d in 'UD':
                     yield f'schc droundtrip {e_packet(dict(pkt, dir=d))} {e_rule(rd)} # {tags}'
                 rsd = _ruleset_with(rng, pkt, rd)
-                yield f"schc mroundtrip {esc(stack)} {e_rules(rsd)} {raw} {rng.choice('UD')} {rng.choice(['first', 'best'])} # {tags.replace('c18 ', '')}"
+                for st in ('first', 'best'):
+                    yield f"schc mroundtrip {esc(stack)} {e_rules(rsd)} {raw} {rng.choice('UD')} {st} # {tags.replace('c18 ', 'c18m ')}"
+                # the rule alone in its set: whichever strategy, both sides must use the descriptors of the direction
+                for st in ('first', 'best'):
+                    for d in 'UD':
+                        yield f"schc mroundtrip {esc(stack)} {e_rules([rd])} {raw} {d} {st} # {tags.replace('c18 ', 'c18m ')}"
             if 'C03' in props:
                 s = spec.ref_compress(pkt, r)
                 yield f"schc decompress {rng.choice('LR')}:{s} {e_rule(r)} # conforming"
@@ -692,6 +699,22 @@ def gen(props, tier, rng):
             if rng.random() < 0.2: s = s[:rng.randrange(0, len(s) + 1)]
             yield f"schc matchschc {e_rules(rules)} {rng.choice('LR')}:{s} # prefixfree"
             yield f"schc mdecompress {e_rules(rules)} {rng.choice('LR')}:{s} # prefixfree"
+    # ---------------------------------------------------------------- checksums whose one's-complement sum folds twice
+    if props & {'C01', 'C03', 'C09', 'C20'}:
+        for i in range(12 if q else 120):
+            data, exp, pl = packets.build_double_carry_udp(rng, v6=(i % 2 == 0))
+            pkt = rulegen.packet_from_fields(exp, packets.bits_of(pl), rng.choice('UD'))
+            r = stack_rule(rng, pkt, compute_prob=0.3)
+            for k, f in enumerate(r['fields']):
+                if f['id'] == 'UDP:Checksum':
+                    r['fields'][k] = {'id': f['id'], 'len': 16, 'pos': f['pos'], 'dir': 'B', 'mo': 'ig', 'cda': 'co', 'tv': ('b', 'L:')}
+            sc = spec.ref_compress(pkt, r)
+            if props & {'C01', 'C09'}:
+                yield f"schc roundtrip {e_packet(pkt)} {e_rule(r)} # {'c01 ' if 'C01' in props else ''}{'c09' if 'C09' in props else ''}"
+            if 'C03' in props: yield f"schc decompress {rng.choice('LR')}:{sc} {e_rule(r)} # conforming"
+            if 'C20' in props:
+                yield f"schc mdecompress {e_rules([r])} {rng.choice('LR')}:{sc} # total prefixfree"
+                yield f"schc decompress {rng.choice('LR')}:{sc} {e_rule(r)} # total"
     # ---------------------------------------------------------------- the un-parsing path (C01, C19, C09)
     if props & {'C01', 'C19', 'C09'}:
         yield from _gen_unparser(rng, q, props)
